@@ -119,6 +119,8 @@ WiresOf(as, vs) == {w \in [DOMAIN as -> UNION {WireChoices(as[i], vs[i]) : i \in
 Carried(a, v) ==
   IF a.loc = "cookie" /\ a.kind = "string" /\ v.s = "uni" /\ Dev("cookie.value_sanitized")
   THEN (IF v.n = 1 THEN V("string", 0, "empty", v.cn) ELSE [v EXCEPT !.s = "plain", !.n = v.n - 1])
+  ELSE IF a.loc = "cookie" /\ a.kind = "bytes" /\ v.s = "uni" /\ Dev("cookie.value_sanitized")        \* (Bytes: n counts bytes, two are dropped)
+  THEN [v EXCEPT !.s = "plain", !.n = v.n - 2]
   ELSE v
 
 \* what the server reads back for one attribute from its location
@@ -129,11 +131,12 @@ ReadBack(a, w) ==
   ELSE IF a.nest = "whole_mapval" /\ a.loc = "query" /\ Dev("decode.mapparams_prefix_expected") THEN EmptyOf(a)
   ELSE IF a.loc = "body" THEN c
   ELSE IF a.kind = "string" /\ a.nest \in {"direct", "alias", "whole"} /\ c.s = "empty" /\ Dev("param.empty_string_is_absent") THEN dflt
-  ELSE IF a.loc = "path" /\ a.kind = "string" /\ c.s = "pcthex" /\ Dev("mux.double_unescape")
+  ELSE IF a.kind = "bytes" /\ c.n = 0 /\ Dev("param.empty_string_is_absent") THEN dflt           \* (the same test on the raw text)
+  ELSE IF a.loc = "path" /\ a.kind \in {"string", "bytes"} /\ c.s = "pcthex" /\ Dev("mux.double_unescape")
        THEN [c EXCEPT !.s = "plain", !.n = c.n - 2]
   ELSE c
 
-Routed == \A i \in PIdx : ~(cfg.pa[i].loc = "path" /\ cfg.pa[i].kind = "string" /\ wire[i].v # Absent
+Routed == \A i \in PIdx : ~(cfg.pa[i].loc = "path" /\ cfg.pa[i].kind \in {"string", "bytes"} /\ wire[i].v # Absent
                             /\ wire[i].v.s = "slash" /\ Dev("client.path_not_escaped"))
 
 \* validation as the server performs it
@@ -160,7 +163,7 @@ FixedAttr == Attr("int", "body", "required", "none", "direct")
 FixedVal == V("int", 3, "plain", 1)
 ResAttrOK(a) == a.loc \in {"header", "cookie", "body"} /\ (a.nest \in Whole => a.loc = "body")     \* result attributes travel in header, cookie or body only
 Init ==
-  /\ cfg = [pa |-> <<>>, ra |-> <<>>, tagged |-> FALSE, devs |-> Deviations] /\ pv = <<>> /\ rv = <<>>
+  /\ cfg = [pa |-> <<>>, ra |-> <<>>, tagged |-> FALSE, tags |-> 0, devs |-> Deviations] /\ pv = <<>> /\ rv = <<>>
   /\ pc = "pick" /\ wire = <<>> /\ delivered = <<>> /\ invoked = FALSE /\ status = 0 /\ errname = "none"
   /\ rwire = <<>> /\ returned = <<>> /\ cerr = "none"
 PickP ==
@@ -178,11 +181,14 @@ PickR ==
             /\ cfg' = [cfg EXCEPT !.ra = Append(@, a)] /\ rv' = Append(rv, v)
      ELSE cfg' = [cfg EXCEPT !.ra = Append(@, FixedAttr)] /\ rv' = Append(rv, FixedVal)
   /\ UNCHANGED <<pv, pc, wire, delivered, invoked, status, errname, rwire, returned, cerr>>
-\* a tagged second response (status 201) selected when the first result attribute, a plain string, equals "abc"
+\* tagged responses: one (201 selected by the first result attribute, a plain string, being "abc"), or - with two such
+\* attributes - two (201 on r1, 202 on r2) in either declaration order (TaggedResponses below)
+TagAttr(a) == a.kind = "string" /\ a.nest = "direct" /\ a.rule = "none"
 PickDone ==
   /\ pc = "pick" /\ Len(cfg.pa) = NPA /\ Len(cfg.ra) = NRA
-  /\ \E t \in (IF Family = "res" /\ NRA >= 1 /\ cfg.ra[1].kind = "string" /\ cfg.ra[1].nest = "direct" /\ cfg.ra[1].rule = "none"
-                THEN BOOLEAN ELSE {FALSE}) : cfg' = [cfg EXCEPT !.tagged = t]
+  /\ \E t \in {0} \cup (IF Family = "res" /\ NRA >= 1 /\ TagAttr(cfg.ra[1]) THEN {1} ELSE {})
+                    \cup (IF Family = "res" /\ NRA >= 2 /\ TagAttr(cfg.ra[1]) /\ TagAttr(cfg.ra[2]) THEN {2, 3} ELSE {}) :
+        cfg' = [cfg EXCEPT !.tagged = (t >= 1), !.tags = t]
   /\ pc' = "encode"
   /\ UNCHANGED <<pv, rv, wire, delivered, invoked, status, errname, rwire, returned, cerr>>
 
@@ -216,17 +222,32 @@ Invoke ==
   /\ UNCHANGED <<cfg, pv, rv, wire, delivered, status, errname, rwire, returned, cerr>>
 
 \* ---- response half
-\* the first result attribute doubles as the tag attribute when cfg.tagged (string "abc" selects the tagged response)
-TagHit == cfg.tagged /\ NRA >= 1 /\ rv[1] # Absent /\ rv[1].cls = "string" /\ rv[1].n = 3 /\ rv[1].s = "plain"
+\* Tagged responses.  dsl.Tag: "The algorithm that encodes the result into the HTTP response iterates through the responses
+\* and uses the first response that has a matching tag (that is for which the result field with the tag name matches the tag
+\* value).  There must be one and only one response with no Tag expression, this response is used when no other tag matches."
+\* So: of the tagged responses IN DECLARATION ORDER the first whose tag attribute equals the tag value decides the status
+\* and the mapping (which header / cookie names carry the attributes); the tagless response answers when none matches,
+\* wherever it is declared.
+\* cfg.tags (records built by modules that only know the boolean cfg.tagged have no such field): 0 no tagged response,
+\* 1: 201 [r1 = "abc"], 200;   2: 201 [r1 = "abc"], 202 [r2 = "abc"], 200;   3: 200, 202 [r2 = "abc"], 201 [r1 = "abc"]
+TagLayout == IF "tags" \in DOMAIN cfg THEN cfg.tags ELSE IF cfg.tagged THEN 1 ELSE 0
+TagMatch(j) == j <= Len(rv) /\ rv[j] # Absent /\ rv[j].cls = "string" /\ rv[j].n = 3 /\ rv[j].s = "plain"
+TaggedResponses == CASE TagLayout = 0 -> <<>>
+                     [] TagLayout = 1 -> << <<201, 1>> >>
+                     [] TagLayout = 2 -> << <<201, 1>>, <<202, 2>> >>
+                     [] OTHER -> << <<202, 2>>, <<201, 1>> >>
+DesignedStatus == LET hits == {k \in DOMAIN TaggedResponses : TagMatch(TaggedResponses[k][2])} IN
+                  IF hits = {} THEN 200 ELSE TaggedResponses[CHOOSE k \in hits : \A m \in hits : k <= m][1]
+TagHit == DesignedStatus # 200
 ServerEncode ==
   /\ pc = "respond"
-  /\ status' = IF TagHit THEN 201 ELSE 200
+  /\ status' = DesignedStatus
   /\ rwire' \in WiresOf(cfg.ra, rv)
   /\ pc' = "cswitch"
   /\ UNCHANGED <<cfg, pv, rv, wire, delivered, invoked, errname, returned, cerr>>
 ClientSwitch ==
   /\ pc = "cswitch"
-  /\ IF status \in {200, 201} THEN pc' = "cdecode" /\ UNCHANGED cerr
+  /\ IF status \in {200, 201, 202} THEN pc' = "cdecode" /\ UNCHANGED cerr
      ELSE pc' = "done" /\ cerr' = "remote"
   /\ UNCHANGED <<cfg, pv, rv, wire, delivered, invoked, status, errname, rwire, returned>>
 \* list-valued response header of >= 2 elements, read back as a single joined element (and an empty list,
@@ -261,7 +282,7 @@ InvokedIffValid == pc = "done" => /\ (Satisfies(cfg.pa, pv) => invoked)
 RejectedIs4xxNamingRule == pc = "done" /\ ~invoked => status \in 400..499 /\ (Violates(cfg.pa, pv) => errname \in ViolationNames(cfg.pa, pv))
 \* C03
 ResultIntact == cerr = "result" => \A j \in RIdx : returned[j] \in AllowedDelivered(cfg.ra[j], rv[j])
-StatusAsDesigned == pc = "done" /\ invoked => status = (IF TagHit THEN 201 ELSE 200)
+StatusAsDesigned == pc = "done" /\ invoked => status = DesignedStatus
 ResponsePartition == rwire # <<>> => \A j \in RIdx : rwire[j].loc \in AllowedWhere(cfg.ra[j], rv[j])
 \* C04, client side: a result violating its constraints is refused
 ClientRejectsInvalidResult == pc = "done" /\ invoked =>
